@@ -33,7 +33,9 @@ PROPS = {
              "builtin_hybrid::copy_matrix, level-0 matrix of the hierarchies) is compared entry by entry (bitwise) and by SpMV (long double reference, bound c*u*sum|a||x|) with the "
              "scalar matrix; six formulations (block value type via adapter / via block tuple, make_block_solver 2- and 3-argument, coarsening::as_scalar, builtin_hybrid, "
              "relaxation::as_block) are solved, the 3-argument forms (block adapter + amg<block>, make_block_solver, builtin_hybrid) additionally with a matrix A1 that differs from the setup matrix (2A, or diagonal +10..50% and off-diagonals x0.6..1), and the true residual of the SCALAR system (long double) is compared with the reported one (two-sided, drift allowance "
-             "8(m+4)(k+1)u*||A||inf*||x||inf*sqrt(n)/||f||) and, on the model kinds 0-2, with the tolerance (1e-8 / 1e-6, maxiter 1000). Complex part: Hermitian PD (M-pattern + i*skew), shifted (Mmat + i*sigma*I, |sigma| <= min a_ii) and Hermitian+imaginary-diagonal (|Im a_ii| <= Re a_ii) "
+             "8(m+4)(k+1)u*||A||inf*||x||inf*sqrt(n)/||f||) and, on the model kinds 0-2, with the tolerance (1e-8 / 1e-6, maxiter 1000). Eigen vs static_matrix (b=2,3) on model block cases made non-symmetric (off-diagonal entries scaled by independent factors in [0.5,1], skew part in every diagonal block): math::adjoint and "
+             "backend::transpose of crs<Eigen block> entry-exact against the scalar transpose; amg<Eigen block> and amg<static_matrix> (SA, eps_strong=0, spai0) have the same level table and apply() agrees within "
+             "1000*u*n on 3 vectors; the Eigen solve is truthful on the scalar system and converges on the model kinds. Complex part: Hermitian PD (M-pattern + i*skew), shifted (Mmat + i*sigma*I, |sigma| <= min a_ii) and Hermitian+imaginary-diagonal (|Im a_ii| <= Re a_ii) "
              "systems: adapter::complex_matrix entries = [re -im; im re] bitwise, SpMV on complex_range views, builtin<complex> solution (CG on the Hermitian kind, GMRES, or BiCGStab -- the latter without a convergence requirement) vs real-equivalent solution "
              "(BiCGStab on adapter::complex_matrix with 2x2 point aggregates; both truthful on the complex system, difference <= kappa_2*(2 tol + drift)). Mixed precision: amg<builtin<float>> under cg/bicgstab<builtin<double>> with default tol 1e-8, called solve(A_double,f,x), on "
              "model problems (isotropic grids, bounded-degree graphs, contrast<=10, n<=3600, coarse_enough 3000/500/100); the two-argument form (double Krylov method iterating on the float copy fl(A) held by "
